@@ -14,6 +14,7 @@ def run(patchdir, props=None):
     from sa.index import Repo
     from sa.report import Ctx, load_known, match_known
     import importlib
+    patchdir = os.path.abspath(patchdir)
     tmp = tempfile.mkdtemp(prefix="seedrun-")
     try:
         shutil.copytree("/repo/src", os.path.join(tmp, "src"))
